@@ -96,6 +96,7 @@ def strs(v, ts):
 
 def run(chk):
     repo = chk.repo
+    cm.schema(chk, repo, "C10")
     d1_region(chk, repo)
     d1_mesh(chk, repo)
     d1_field(chk, repo)
